@@ -298,7 +298,7 @@ def run(ctx):
         big = ("L", [("U1", [3])] * 256)
         _decode_case(ctx, I, big, e5ref.encode(big), "L:boundary")
         _cross_case(ctx, Icls, big)
-    n = 8000 if ctx.quick else 100000
+    n = 8000 if ctx.quick else 900000
     for i in range(n):
         r = i % 10
         if r < 3:
